@@ -2,6 +2,7 @@ import Mkdb.Proofs.Session
 import Mkdb.Proofs.SessionInv9
 import Mkdb.Proofs.DbNames1
 import Mkdb.Proofs.SessionCrash3
+import Mkdb.Proofs.SessionCrash6
 /-!
 # C17 — databases are isolated and survive any USE pattern
 
@@ -650,5 +651,138 @@ theorem C17_crash_loses_rows_of_a_refused_insert :
     rowsOf (exec (runAll {} ghostHistory).1 ghostUpdate).1 "d" = some [[.int 7]] ∧
     (crashRestart (exec (runAll {} ghostHistory).1 ghostUpdate).1).map (rowsOf · "d") = some (some []) :=
   crash_loses_unlogged_rows
+
+
+/-! ### crashes: the databases that are not selected are checkpointed; histories as lists of operations
+
+`SessCrash' s w` (Proofs/SessionCrash4): `SessCrash s w`, and every database that is NOT selected is
+checkpointed (`CkptNS`).  With it a CREATE TABLE right after USE needs no extra hypothesis. -/
+
+/-- **C17.crash_invariant_with_closed_databases**: the stronger crash invariant `SessCrash'` implies
+`SessCrash`, holds in the empty session, is kept by USE, CREATE DATABASE (for the plain databases `cdW`: a
+new empty one if the statement was accepted), every statement that leaves the session as it is, and by
+`restart` and `crashRestart` - neither fails, and after either EVERY database is checkpointed for the same
+plain database (nothing is selected then).  (Accepted INSERT / UPDATE / DELETE / CREATE TABLE:
+`accepted_sessCrash'`, `createTable_sessCrash'`, used in `C17_histories_with_crashes`.) -/
+theorem C17_crash_invariant_with_closed_databases (s : Sess) (w : String → Spec.SDB) (h : SessCrash' s w) :
+    SessCrash s w ∧ SessCrash' {} w ∧ (∀ name, SessCrash' (exec s (.use name)).1 w) ∧
+    (∀ name, SessCrash' (exec s (.createDatabase name)).1 (cdW s w name)) ∧
+    (∀ st, (exec s st).1 = s → SessCrash' (exec s st).1 w) ∧
+    (∃ s', restart s = some s' ∧ SessCrash' s' w ∧ names s' = names s ∧ s'.cur = none ∧
+      ∀ p ∈ s'.dbs, CkptNS p.2 (w p.1)) ∧
+    (∃ s', crashRestart s = some s' ∧ SessCrash' s' w ∧ names s' = names s ∧ s'.cur = none ∧
+      ∀ p ∈ s'.dbs, CkptNS p.2 (w p.1)) :=
+  ⟨h.base, sessCrash'_empty w, use_sessCrash' h, createDatabase_sessCrash' h,
+    fun st hs => same_sessCrash' h st hs, restart_sessCrash' h.base, crashRestart_sessCrash' h.base⟩
+
+/-- non-vacuity: the session after CREATE DATABASE d -/
+example : SessCrash' sess1 (setW (fun _ => []) (canon [100]) []) := createTable_after_use_example.1
+
+/-- **C17.use_leaves_both_databases_checkpointed**: after an ACCEPTED USE in a session that satisfies
+`SessCrash'`: the invariant holds again for the same plain databases; the named database is selected; every
+OTHER database is checkpointed (`CkptNS`) - in particular the one selected before, which USE flushed and
+re-opened (`DbCrash.flush`); and the newly selected database is checkpointed too, unless it was the
+selected one already (then USE changes nothing and it may hold row statements not yet flushed). -/
+theorem C17_use_leaves_both_databases_checkpointed (s : Sess) (w : String → Spec.SDB) (h : SessCrash' s w)
+    (name : Bytes) (hok : (exec s (.use name)).2 = Out.ok) :
+    SessCrash' (exec s (.use name)).1 w ∧ (exec s (.use name)).1.cur = some (canon name) ∧
+    (∀ p ∈ (exec s (.use name)).1.dbs, p.1 ≠ canon name → CkptNS p.2 (w p.1)) ∧
+    (∀ c db, s.cur = some c → c ≠ canon name → getDB (exec s (.use name)).1 c = some db → CkptNS db (w c)) ∧
+    ∃ db, getDB (exec s (.use name)).1 (canon name) = some db ∧
+      (s.cur ≠ some (canon name) → CkptNS db (w (canon name))) := by
+  obtain ⟨h1, h2, h3⟩ := use_ckpt h name hok
+  exact ⟨use_sessCrash' h name, h1, h2, fun c db _ hne hg => h2 (c, db) (getDB_mem hg) hne, h3⟩
+
+/-- non-vacuity: USE d in the session after CREATE DATABASE d is accepted -/
+example : SessCrash' sess1 (setW (fun _ => []) (canon [100]) []) ∧ (exec sess1 (.use [100])).2 = Out.ok :=
+  ⟨createTable_after_use_example.1, createTable_after_use_example.2.1⟩
+
+/-- **C17.create_table_after_use_keeps_the_crash_invariant**: a CREATE TABLE that the plain model accepts
+(with room), issued right after an accepted USE of a database that was not the selected one - in particular
+after `restart` or a crash, when nothing is selected - is accepted, keeps `SessCrash'` for the plain model's
+result, and leaves the selected database checkpointed (so another CREATE TABLE may follow).  NO hypothesis
+that the selected database is checkpointed: `SessCrash'` gives it (`C17_use_leaves_both_databases_checkpointed`).
+`db` is the database USE selected. -/
+theorem C17_create_table_after_use_keeps_the_crash_invariant (s : Sess) (w : String → Spec.SDB)
+    (h : SessCrash' s w) (name : Bytes) (hok : (exec s (.use name)).2 = Out.ok) (hsel : s.cur ≠ some (canon name))
+    (db : DB) (hg : getDB (exec s (.use name)).1 (canon name) = some db) (t : Bytes) (cols : List ColDef)
+    (hroom : ∀ pt sch tbls, DbInv db (w (canon name)) pt sch tbls → StmtRoom db pt sch tbls (.createTable t cols))
+    (sdb' : Spec.SDB) (hspec : Spec.specStmt (w (canon name)) (.createTable t cols) = some sdb') :
+    (exec (exec s (.use name)).1 (.createTable t cols)).2 = Out.ok ∧
+    SessCrash' (exec (exec s (.use name)).1 (.createTable t cols)).1 (setW w (canon name) sdb') ∧
+    ∃ db', getDB (exec (exec s (.use name)).1 (.createTable t cols)).1 (canon name) = some db' ∧
+      CkptNS db' sdb' :=
+  createTable_after_use h name hok hsel db hg t cols hroom sdb' hspec
+
+/-- non-vacuity: CREATE DATABASE d; then USE d; CREATE TABLE t (a INT) -/
+example : SessCrash' sess1 (setW (fun _ => []) (canon [100]) []) ∧ (exec sess1 (.use [100])).2 = Out.ok ∧
+    sess1.cur ≠ some (canon [100]) ∧ getDB (exec sess1 (.use [100])).1 (canon [100]) = some newDB ∧
+    (∀ pt sch tbls, DbInv newDB (setW (fun _ => []) (canon [100]) [] (canon [100])) pt sch tbls →
+      StmtRoom newDB pt sch tbls (.createTable tname acols)) ∧
+    Spec.specStmt (setW (fun _ => []) (canon [100]) [] (canon [100])) (.createTable tname acols) =
+      some [⟨tname, [⟨"a", .int, 0⟩], []⟩] := createTable_after_use_example
+
+/-- **C17.histories_with_crashes_from**: the list form of `C17_histories_with_crashes_partial`, from any
+session.  `runOps` runs a list of operations - statements, `restart`, crash (`crashRestart`) - and is `none`
+if a recovery fails.  From a session that satisfies `CInv s w clean` (`SessCrash' s w`, and if the flag
+`clean` is set every database is checkpointed), for every list that meets `OkOps`: the run is `some s'` - NO
+recovery in it fails - and `s'` satisfies `SessCrash'` (hence `SessCrash`, `SessAbs`) for the plain
+databases `worldOps s w ops`: those the plain model `Spec.specStmt` computes, statement by statement, on
+the selected database (CREATE DATABASE adds an empty one when accepted; restarts and crashes change none).
+`OkOps` asks NOTHING of CREATE DATABASE, USE, SHOW DATABASES, SELECT, `restart`, crash; of CREATE TABLE /
+INSERT / UPDATE / DELETE: either the statement leaves the session as it is and the plain model refuses it
+too, or the plain model accepts it with room (`StmtRoom`), a CREATE TABLE only while the flag is set:
+the flag is set by an accepted USE of another database, an accepted CREATE TABLE, a restart, a crash, and
+cleared by an accepted row statement.  EXCLUDED: statements the selected database refuses after changing
+its cache (a refusal at a later row: the statement is then false, `C17_crash_loses_rows_of_a_refused_insert`;
+a refusal that only advances counters: not proved), CREATE TABLE after row statements with no USE of another
+database / restart / crash between them. -/
+theorem C17_histories_with_crashes_from (s : Sess) (w : String → Spec.SDB) (clean : Bool) (ops : List SOp)
+    (h : CInv s w clean) (hok : OkOps s w clean ops) :
+    ∃ s', runOps s ops = some s' ∧ SessCrash' s' (worldOps s w ops) ∧ SessAbs s' (worldOps s w ops) ∧
+      (cleanOps s w clean ops = true → ∀ p ∈ s'.dbs, CkptNS p.2 (worldOps s w ops p.1)) := by
+  obtain ⟨s', e, h'⟩ := runOps_cinv ops s w clean h hok
+  exact ⟨s', e, h'.inv, h'.inv.base.abs, h'.ck⟩
+
+/-- non-vacuity: from `sessT` (CREATE DATABASE d; USE d; CREATE TABLE t (a INT)): INSERT INTO t VALUES (5),
+(6) - accepted with room -; crash; USE d; restart -/
+example : CInv sessT (fun _ => sdbA0) false ∧ OkOps sessT (fun _ => sdbA0) false
+    [.stmt (.insert tname [] [[.int 5], [.int 6]]), .crash, .stmt (.use [100]), .restart] := okOps_sessT_example
+
+/-- **C17.histories_with_crashes**: from the EMPTY session, for every list of operations - statements,
+`restart`, crash - that meets the side conditions `OkOps` (see `C17_histories_with_crashes_from`: none for
+CREATE DATABASE, USE, SHOW DATABASES, SELECT, restart, crash; a CREATE TABLE / INSERT / UPDATE / DELETE is
+accepted by the plain model of the selected database with room, a CREATE TABLE only right after USE of
+another database / restart / crash / another CREATE TABLE, or it leaves the session as it is and is refused
+by the plain model too): `runOps {} ops` is `some s'` - no recovery fails, however many crashes and restarts
+the list holds -, and `s'` satisfies the crash invariant `SessCrash'` (so `SessCrash`, `SessAbs`: what a
+reader sees of every database, `C17_contents_are_what_a_reader_sees`) for the plain databases
+`worldOps {} (fun _ => []) ops` of the acknowledged statements; one more crash or restart succeeds too and
+preserves them. -/
+theorem C17_histories_with_crashes (ops : List SOp) (hok : OkOps {} (fun _ => []) true ops) :
+    ∃ s', runOps {} ops = some s' ∧ SessCrash' s' (worldOps {} (fun _ => []) ops) ∧
+      SessAbs s' (worldOps {} (fun _ => []) ops) ∧
+      (∃ s'', crashRestart s' = some s'' ∧ SessCrash' s'' (worldOps {} (fun _ => []) ops) ∧ names s'' = names s') ∧
+      (∃ s'', restart s' = some s'' ∧ SessCrash' s'' (worldOps {} (fun _ => []) ops) ∧ names s'' = names s') := by
+  obtain ⟨s', e, h'⟩ := runOps_cinv ops {} _ true (cinv_empty _ _) hok
+  obtain ⟨s1, e1, k1, n1, _⟩ := crashRestart_sessCrash' h'.inv.base
+  obtain ⟨s2, e2, k2, n2, _⟩ := restart_sessCrash' h'.inv.base
+  exact ⟨s', e, h'.inv, h'.inv.base.abs, ⟨s1, e1, k1, n1⟩, ⟨s2, e2, k2, n2⟩⟩
+
+/-- non-vacuity: CREATE DATABASE d; USE d; CREATE TABLE t (a INT) - accepted with room, the flag is set by
+the USE -; crash; USE d; restart -/
+example : OkOps {} (fun _ => []) true
+    [.stmt (.createDatabase [100]), .stmt (.use [100]), .stmt (.createTable tname acols), .crash,
+     .stmt (.use [100]), .restart] := okOps_example
+
+/-- **C17.crash_operations_example** (computed): CREATE DATABASE d; CREATE DATABASE e; USE d; CREATE TABLE t
+(a INT); INSERT INTO t VALUES (5); crash; USE e; CREATE TABLE t (a INT); restart; USE d; INSERT INTO t VALUES
+(6); crash - every statement is accepted, no recovery fails; afterwards nothing is selected, a reader of
+`d.t` sees `(5), (6)` and `e.t` is empty. -/
+theorem C17_crash_operations_example :
+    (outsOps {} crashOps).map allOk = some true ∧
+    (runOps {} crashOps).map (fun s' => (s'.cur, rowsOf (exec s' (.use [100])).1 "d",
+        rowsOf (exec s' (.use [101])).1 "e")) = some (none, some [[.int 5], [.int 6]], some []) :=
+  crashOps_example
 
 end Mkdb.Session
